@@ -557,14 +557,20 @@ class Check:
             "samples": report["samples"][:5] or [{"note": "no sample"}],
             "correspondence_disagreements": report["disagreements"],
             "impl_property_failures": report["impl_failures"],
-            "input_distribution": report["hist"],
+            "input_distribution": report["hist"] or {"note": "see rule; per-family counts are in the extra keys where the check records them"},
             "exhaustive": False,
         }
         cov.update(report["extra"])
         ev = {"property_id": self.ident, "tier": self.tier, "seed": self.seed, "level": "proof",
               "coverage": cov, "assumptions": list(self.assumptions), "wall_s": round(wall, 2),
               "violations": nviol}
-        with open(os.path.join(VERIF, "evidence", f"{self.ident}.json"), "w") as f:
+        # evidence describes runs against /repo only; self-tests against scratch copies (VERIF_REPO) go elsewhere
+        if os.path.realpath(REPO) == os.path.realpath("/repo"):
+            out = os.path.join(VERIF, "evidence", f"{self.ident}.json")
+        else:
+            os.makedirs(os.path.join(VERIF, "replays"), exist_ok=True)
+            out = os.path.join(VERIF, "replays", f"evidence-{self.ident}-scratch.json")
+        with open(out, "w") as f:
             json.dump(ev, f, indent=1, default=repr)
 
 
